@@ -222,16 +222,23 @@ def work(ctx, block):
     return {"viol": v, "stats": st}
 
 
+def _vocab():
+    from . import families
+    return families.vocabulary_family()
+
+
 def unit_sets(tier):
     if tier == "quick":
         yield "tree(SPLIT13,4)", list(B.tree(ALPHA, 4, max_need=8))
         yield "filler(18..27,<=2)", list(filler_blocks(range(18, 28), 2))
         yield "filler(21..24,3)", [b for b in filler_blocks(range(21, 25), 3)]
         yield "deep-stack", list(deep_blocks())
+        yield "vocabulary-family", _vocab()
     else:
         yield "tree(SPLIT13,5)", list(B.tree(ALPHA, 5, max_need=8))
         yield "filler(18..27,<=3)", list(filler_blocks(range(18, 28), 3))
         yield "deep-stack", list(deep_blocks(list(range(0, 40)) + [98, 99, 100, 101, 102]))
+        yield "vocabulary-family", _vocab()
 
 
 def main(tier, seed, only=None):
